@@ -111,7 +111,7 @@ theorem mapNode_exact {env : Env} {pc : Bool} {sp0 : Spell} {o : MapOrigin} {k w
       simp only [hsub, Bool.not_true, Bool.false_eq_true, ↓reduceIte, Bool.true_and]
       apply allRaw_exact _ (fun (kv : Val × Val) => p kv.1 && q kv.2)
       intro kv hkv
-      have := hel (effSpell pc sp0 == .pep585) kvs hi kv hkv
+      have := hel (sp0 == .pep585) kvs hi kv hkv
       simp only [this.1]
       exact and2_ok _ _ _ this.2
   · simp [hsub]
